@@ -23,6 +23,12 @@ def build(spec):
         for i in range(n - 1):
             p.add_propagator(([i, i + 1], P.ALG_AFFINE_LEQ, [1, -1, -1]))
         return p
+    if kind == "gated":  # sum(x1..xn) <= n*x0 and s = sum(x1..xn): the x0=0 part needs no choice point, x0=1 needs n
+        n = spec["n"]
+        p = Problem([(0, 1)] * (n + 1) + [(0, n)])
+        p.add_propagator((list(range(1, n + 1)) + [0], P.ALG_AFFINE_LEQ, [1] * n + [-n, 0]))
+        p.add_propagator((list(range(1, n + 2)), P.ALG_AFFINE_EQ, [1] * n + [-1, 0]))
+        return p
     if kind == "many_params":  # total number of parameters around 2^16
         k, per = spec["k"], spec["per"]
         p = Problem([(0, 1), (0, 1)])
@@ -61,6 +67,8 @@ def solve(spec, height):
         w = spec.get("w", 2)
         n = len(p.shr_domains_lst)
         kw["dom_heuristic_params"] = [[1 if v == 1 else 2 for v in range(w)] for d in range(n)]  # an interior value is cheapest
+    if spec.get("workers"):
+        return solve_mp(spec, p, height, kw)
     s = BacktrackSolver(p, consistency_alg_idx=spec.get("cons", 0), var_heuristic_idx=spec.get("var_h", 0),
                         dom_heuristic_idx=spec.get("dom_h", 0), stack_max_height=height, log_level="ERROR", **kw)
     out = []
@@ -74,9 +82,41 @@ def solve(spec, height):
             "depth": st["SOLVER_CHOICE_DEPTH"], "choices": st["SOLVER_CHOICE_NB"]}
 
 
+def solve_mp(spec, p, height, kw):
+    """The same capacity point through the multiprocessing solver (in-process fakes, fixed delivery plan): a worker
+    whose stack overflows dies with an exception; the parent must raise, not return a partial answer."""
+    from nucs.solvers.backtrack_solver import BacktrackSolver
+    from nucs.solvers.multiprocessing_solver import MultiprocessingSolver
+    from sim import mpsim
+    from sim.kernel import Choices
+
+    parts = p.split(spec["workers"], spec.get("split_var", 0))
+    solvers = [BacktrackSolver(sp, consistency_alg_idx=spec.get("cons", 0), dom_heuristic_idx=spec.get("dom_h", 0),
+                               stack_max_height=height, log_level="ERROR", **kw) for sp in parts]
+
+    def run_worker(stream, clone, method, args, kwargs):
+        try:
+            getattr(clone, method)(*args, **kwargs)
+        except Exception as e:  # the worker process dies with this exception (exit code 1, no completion marker)
+            stream.error = e
+
+    world = mpsim.World(Choices(seed=spec.get("seed", 0)), {"template": "jitter", "faults": {}, "start": {}, "opcost": 1}, run_worker, {})
+    parent = MultiprocessingSolver(solvers, log_level="ERROR")
+    with mpsim.patched(world):
+        if spec.get("op") == "max":
+            r = parent.maximize(spec["objective"])
+            out = [[int(x) for x in r]] if r is not None else []
+            out = [[o[spec["objective"]]] for o in out]
+        else:
+            out = sorted([int(x) for x in s] for s in parent.solve())
+    return {"solutions": out if len(out[0] if out else []) <= 40 else [[sum(o), len(o)] for o in out], "n": len(out),
+            "depth": 0, "choices": 0}
+
+
 def main():
     repo, spec = sys.argv[1], json.loads(sys.argv[2])
     sys.path.insert(0, repo)
+    sys.path.insert(0, os.path.dirname(os.path.dirname(os.path.abspath(__file__))))
     import logging
 
     logging.disable(logging.CRITICAL)
